@@ -180,4 +180,196 @@ def decodeHeadCall : List UInt8 → Option Form
   | [a, b] => if a = 0x67 ∧ b = 0xe8 then some .callRel else decodeHead [a, b]
   | l => decodeHead l
 
+
+/-! ### instruction SEQUENCES (the TLS code sequences)
+
+The TLS relaxations replace a sequence of two (or four) instructions by another sequence, so the
+single-instruction `Effect` above is not enough.  This part is a byte-level decoder for complete
+instructions (`decodeIns`, consuming legacy prefixes, REX, opcode, ModRM, SIB, disp32/imm32/imm64) and a
+state-transformer semantics (`stepIns`, `runSeq`).  All forms here are 64-bit (REX.W) forms; with REX.W
+the 0x66 prefixes that the TLS ABI uses as padding have no effect (SDM vol. 2, 2.2.1.2).
+
+`call __tls_get_addr` is ABSTRACTED: a near call whose target is `TlsEnv.getAddr` returns to the next
+instruction with `%rax = tlsBase(ti.module) + ti.offset` where `%rdi` points at the `tls_index` pair in
+memory (ELF TLS ABI, Drepper, "ELF Handling For Thread-Local Storage", 3.4.2 / 4.1.6: the x86-64 GD/LD sequences); the registers the
+SysV ABI lets a callee clobber get unspecified values `TlsEnv.clob` (the status flags are
+call-clobbered too and are therefore not part of the sequence-level state); memory visible to the caller is unchanged.
+A call to any other target is outside the model (`none`). -/
+
+/-- little-endian 32-bit field from four bytes -/
+def le32 (b0 b1 b2 b3 : UInt8) : BitVec 32 := b3.toBitVec ++ b2.toBitVec ++ b1.toBitVec ++ b0.toBitVec
+
+/-- the four little-endian bytes of a 32-bit field (what applying a 4-byte relocation stores) -/
+def bytes32 (v : BitVec 32) : List UInt8 :=
+  [UInt8.ofBitVec (v.extractLsb' 0 8), UInt8.ofBitVec (v.extractLsb' 8 8),
+   UInt8.ofBitVec (v.extractLsb' 16 8), UInt8.ofBitVec (v.extractLsb' 24 8)]
+
+/-- Store a relocated 32-bit value at `off` (the section is long enough in every use). -/
+def patch32 (bs : List UInt8) (off : Nat) (v : BitVec 32) : List UInt8 :=
+  bs.take off ++ bytes32 v ++ bs.drop (off + 4)
+
+/-- the eight little-endian bytes of a 64-bit field -/
+def bytes64 (v : BitVec 64) : List UInt8 := bytes32 (v.truncate 32) ++ bytes32 ((v >>> 32).truncate 32)
+
+/-- Store a relocated 64-bit value at `off`. -/
+def patch64 (bs : List UInt8) (off : Nat) (v : BitVec 64) : List UInt8 :=
+  bs.take off ++ bytes64 v ++ bs.drop (off + 8)
+
+def le64 (b0 b1 b2 b3 b4 b5 b6 b7 : UInt8) : BitVec 64 := le32 b4 b5 b6 b7 ++ le32 b0 b1 b2 b3
+
+/-- Complete instructions (64-bit operand size). -/
+inductive Ins where
+  | movRip (r : Reg) (d : BitVec 32)          -- mov  d(%rip), r
+  | leaRip (r : Reg) (d : BitVec 32)          -- lea  d(%rip), r
+  | addRip (r : Reg) (d : BitVec 32)          -- add  d(%rip), r
+  | movFs (r : Reg) (d : BitVec 32)           -- mov  %fs:d, r      (absolute disp32: ModRM 00 reg 100, SIB 0x25)
+  | leaBase (r base : Reg) (d : BitVec 32)    -- lea  d(base), r
+  | movImm (r : Reg) (imm : BitVec 32)        -- mov  $imm32, r     (sign-extended)
+  | addImm (r : Reg) (imm : BitVec 32)        -- add  $imm32, r     (sign-extended)
+  | movAbs (r : Reg) (imm : BitVec 64)        -- movabs $imm64, r
+  | addRR (dst src : Reg)                     -- add  src, dst      (01 /r, mod = 11)
+  | callRel (d : BitVec 32)                   -- call rel32
+  | callRip (d : BitVec 32)                   -- call *d(%rip)
+  | callReg (r : Reg)                         -- call *r
+  | nop
+  deriving DecidableEq, Repr
+
+/-- Legacy prefixes in front of REX/opcode: operand size 0x66, `%fs` 0x64, `%cs` 0x2e (no effect in
+64-bit mode).  Returns (number of prefix bytes, saw 0x66, saw 0x64, rest). -/
+def legacyPfx : List UInt8 → Nat × Bool × Bool × List UInt8
+  | [] => (0, false, false, [])
+  | b :: rest =>
+    if b = 0x66 then let (n, _, f, r) := legacyPfx rest; (n + 1, true, f, r)
+    else if b = 0x64 then let (n, o, _, r) := legacyPfx rest; (n + 1, o, true, r)
+    else if b = 0x2e then let (n, o, f, r) := legacyPfx rest; (n + 1, o, f, r)
+    else (0, false, false, b :: rest)
+
+def take32 : List UInt8 → Option (BitVec 32)
+  | a :: b :: c :: d :: _ => some (le32 a b c d)
+  | _ => none
+
+def take64 : List UInt8 → Option (BitVec 64)
+  | a :: b :: c :: d :: e :: f :: g :: h :: _ => some (le64 a b c d e f g h)
+  | _ => none
+
+/-- Length of a ModRM-addressed memory operand's SIB + displacement bytes (for the multi-byte NOP). -/
+def memOperandExtra (modrm : UInt8) : Nat :=
+  let mod_ := modrm >>> 6
+  let rm := modrm &&& 7
+  (if rm = 4 then 1 else 0) + (if mod_ = 1 then 1 else if mod_ = 2 then 4 else 0)
+
+/-- Opcode part (after legacy prefixes and REX). `n` = bytes consumed so far. -/
+def decodeOpc (n : Nat) (o16 fs w r3 b3 : Bool) : List UInt8 → Option (Ins × Nat)
+  | [] => none
+  | op :: tl =>
+    if op = 0x90 ∧ !fs then some (.nop, n + 1)                      -- nop / xchg %ax,%ax (66 90)
+    else if op = 0xe8 ∧ !fs ∧ (w ∨ !o16) then (take32 tl).map fun d => (.callRel d, n + 5)
+    else if op &&& 0xf8 = 0xb8 ∧ w ∧ !fs then (take64 tl).map fun v => (.movAbs (regNo op b3 false) v, n + 9)
+    else match tl with
+    | [] => none
+    | m :: tl2 =>
+      let mod_ := m >>> 6
+      let regf := (m >>> 3) &&& 7
+      let rm := m &&& 7
+      let r := regNo regf r3 false
+      let b := regNo rm b3 false
+      if op = 0x0f then
+        -- 0f 1f /0: multi-byte NOP with a memory operand (not accessed)
+        match tl2 with
+        | m2 :: _ =>
+          if m = 0x1f ∧ (m2 >>> 3) &&& 7 = 0 ∧ m2 >>> 6 ≠ 3 ∧ !(m2 >>> 6 = 0 ∧ m2 &&& 7 = 5) then
+            some (.nop, n + 3 + memOperandExtra m2)
+          else none
+        | [] => none
+      else if fs then
+        -- the only %fs-prefixed form: mov %fs:disp32, r64
+        match tl2 with
+        | sib :: tl3 =>
+          if op = 0x8b ∧ w ∧ mod_ = 0 ∧ rm = 4 ∧ sib = 0x25 then (take32 tl3).map fun d => (.movFs r d, n + 7)
+          else none
+        | [] => none
+      else if op = 0xff ∧ m = 0x15 ∧ (w ∨ !o16) then (take32 tl2).map fun d => (.callRip d, n + 6)
+      else if op = 0xff ∧ mod_ = 3 ∧ regf = 2 ∧ (w ∨ !o16) then some (.callReg b, n + 2)
+      else if !w then none
+      else if mod_ = 0 ∧ rm = 5 then
+        if op = 0x8b then (take32 tl2).map fun d => (.movRip r d, n + 6)
+        else if op = 0x8d then (take32 tl2).map fun d => (.leaRip r d, n + 6)
+        else if op = 0x03 then (take32 tl2).map fun d => (.addRip r d, n + 6)
+        else none
+      else if op = 0x8d ∧ mod_ = 2 ∧ rm ≠ 4 then (take32 tl2).map fun d => (.leaBase r b d, n + 6)
+      else if op = 0xc7 ∧ mod_ = 3 ∧ regf = 0 then (take32 tl2).map fun d => (.movImm b d, n + 6)
+      else if op = 0x81 ∧ mod_ = 3 ∧ regf = 0 then (take32 tl2).map fun d => (.addImm b d, n + 6)
+      else if op = 0x01 ∧ mod_ = 3 then some (.addRR b r, n + 2)
+      else none
+
+/-- Decode one complete instruction from the front of a byte stream: instruction and its length. -/
+def decodeIns (bs : List UInt8) : Option (Ins × Nat) :=
+  match legacyPfx bs with
+  | (n, o16, fs, rest) =>
+    match rest with
+    | [] => none
+    | b :: rest' =>
+      if b &&& 0xf0 = 0x40 then
+        -- REX.X must be clear for the forms here (no index register is ever used)
+        if tb b 1 then none else decodeOpc (n + 1) o16 fs (tb b 3) (tb b 2) (tb b 0) rest'
+      else decodeOpc n o16 fs false false false (b :: rest')
+
+/-- Run-time TLS environment of the current thread. -/
+structure TlsEnv where
+  /-- address of `__tls_get_addr` -/
+  getAddr : BitVec 64
+  /-- module id ↦ address of that module's TLS block for the current thread -/
+  tlsBase : BitVec 64 → BitVec 64
+  /-- unspecified values left in call-clobbered registers by `__tls_get_addr` -/
+  clob : Reg → BitVec 64
+
+/-- Registers a callee may clobber (SysV x86-64 psABI: all but rbx, rsp, rbp, r12–r15; APX r16–r31 are
+caller-saved). -/
+def volatile (r : Reg) : Bool :=
+  !(r.val = 3 || r.val = 4 || r.val = 5 || r.val = 12 || r.val = 13 || r.val = 14 || r.val = 15)
+
+def setReg (σ : State) (r : Reg) (v : BitVec 64) (next : BitVec 64) : State :=
+  { σ with reg := fun x => if x = r then v else σ.reg x, rip := next }
+
+/-- `__tls_get_addr(tls_index *ti)` with `ti = %rdi`, returning to `ret`. -/
+def tlsGetAddr (e : TlsEnv) (σ : State) (ret : BitVec 64) : State :=
+  let ti := σ.reg 7
+  let res := e.tlsBase (σ.mem ti) + σ.mem (ti + 8#64)
+  { σ with reg := fun x => if x = 0 then res else if volatile x then e.clob x else σ.reg x, rip := ret }
+
+/-- One instruction of length `len` at `σ.rip`. -/
+def stepIns (e : TlsEnv) (i : Ins) (len : Nat) (σ : State) : Option State :=
+  let next := σ.rip + BitVec.ofNat 64 len
+  match i with
+  | .movRip r d => some (setReg σ r (σ.mem (next + sext32 d)) next)
+  | .leaRip r d => some (setReg σ r (next + sext32 d) next)
+  | .addRip r d => some (setReg σ r (σ.reg r + σ.mem (next + sext32 d)) next)
+  | .movFs r d => some (setReg σ r (σ.mem (σ.fsBase + sext32 d)) next)
+  | .leaBase r b d => some (setReg σ r (σ.reg b + sext32 d) next)
+  | .movImm r d => some (setReg σ r (sext32 d) next)
+  | .addImm r d => some (setReg σ r (σ.reg r + sext32 d) next)
+  | .movAbs r v => some (setReg σ r v next)
+  | .addRR dst src => some (setReg σ dst (σ.reg dst + σ.reg src) next)
+  | .callRel d => if next + sext32 d = e.getAddr then some (tlsGetAddr e σ next) else none
+  | .callRip d => if σ.mem (next + sext32 d) = e.getAddr then some (tlsGetAddr e σ next) else none
+  | .callReg r => if σ.reg r = e.getAddr then some (tlsGetAddr e σ next) else none
+  | .nop => some { σ with rip := next }
+
+/-- Execute `n` consecutive instructions of straight-line code `code` located at `σ.rip`. -/
+def runSeq (e : TlsEnv) : Nat → List UInt8 → State → Option State
+  | 0, _, σ => some σ
+  | n + 1, code, σ =>
+    match decodeIns code with
+    | none => none
+    | some (i, len) =>
+      match stepIns e i len σ with
+      | none => none
+      | some σ' => runSeq e n (code.drop len) σ'
+
+/-- What the code after a TLS sequence can observe: `%rax`, every callee-saved register, memory, the
+thread pointer and where execution continues. -/
+def ObsEq (σ₁ σ₂ : State) : Prop :=
+  σ₁.rip = σ₂.rip ∧ σ₁.mem = σ₂.mem ∧ σ₁.fsBase = σ₂.fsBase ∧ σ₁.reg 0 = σ₂.reg 0 ∧
+  ∀ r, volatile r = false → σ₁.reg r = σ₂.reg r
+
 end Wild.X86Sem
